@@ -11,7 +11,7 @@ import time
 import models
 import runner
 
-VERIF = "/verif"
+VERIF = os.path.dirname(os.path.dirname(os.path.abspath(__file__)))   # /verif, or a snapshot of it
 
 ASSUMPTIONS = [
     "the implementation's functions are called natively through the `verif` hooks (watchdog::verif_hooks, "
